@@ -71,12 +71,28 @@ impl<F: Fn(pipe::SimplexDirection, usize) + Send + Sync> LeftPipe<F> {
             }
 
             let datagram_len = datagram.payload.len();
-            match self.sink.write(datagram).await? {
-                datagram_pipe::SendStatus::Sent => {
+            let flow = forwarder::UdpDatagramMeta::from(&datagram.meta);
+            match self.sink.write(datagram).await {
+                Ok(datagram_pipe::SendStatus::Sent) => {
                     (self.shared.update_metrics)(self.direction, datagram_len);
                 }
-                datagram_pipe::SendStatus::Dropped => {
+                Ok(datagram_pipe::SendStatus::Dropped) => {
                     log_id!(trace, self.source.id(), "--> Datagram dropped")
+                }
+                Err(e) => {
+                    // an error of one flow (unreachable destination, socket error) is confined
+                    // to that flow: forget it, a later datagram starts a fresh one
+                    log_id!(
+                        debug,
+                        self.source.id(),
+                        "--> Closing UDP flow due to send error: flow={:?}, error={}",
+                        flow,
+                        e
+                    );
+                    self.shared.udp_connections.lock().unwrap().remove(&flow);
+                    self.shared
+                        .forwarder_shared
+                        .on_connection_closed(&flow.reversed());
                 }
             }
         }
@@ -107,10 +123,15 @@ impl<F: Fn(pipe::SimplexDirection, usize) + Send + Sync> LeftPipe<F> {
             },
         );
 
-        self.shared
-            .forwarder_shared
-            .on_new_udp_connection(meta)
-            .await?;
+        if let Err(e) = self.shared.forwarder_shared.on_new_udp_connection(meta).await {
+            // do not keep a flow the forwarder knows nothing about
+            self.shared
+                .udp_connections
+                .lock()
+                .unwrap()
+                .remove(&forwarder::UdpDatagramMeta::from(meta));
+            return Err(e);
+        }
 
         if let Some(c) = self
             .shared
